@@ -229,6 +229,11 @@ def check_block2(gb2, R, o, mps):
         return f"Block2 {rb2} in the response does not answer requested {gb2}"
     if gb2 is None and num != 0:
         return f"Block2 {rb2} in answer to a request without Block2"
+    if gb2 is None and len(body) <= mps:
+        # the answered request states no block size wish (one sent with an earlier Block1 block does
+        # not count) and nothing forces the server to cut
+        return (f"response cut into blocks ({rb2}) although the request carries no Block2 option and the "
+                f"rendering of {len(body)} bytes fits the maximum payload size {mps}")
     start = num * block_size(szx)
     if start >= len(body) and not (len(body) == 0 and num == 0):
         return f"block {num} starts at {start}, beyond the body of {len(body)} bytes, but was served"
